@@ -228,9 +228,9 @@ func c15Families(thorough bool, emit func(c15Doc)) {
 		}
 	}
 	for _, n1 := range names[:4] {
-		emit(c15Doc{"F4-structure", docOf([]c15Q{{Name: n1}, {Name: "b"}}, "")})                                    // no root at all
+		emit(c15Doc{"F4-structure", docOf([]c15Q{{Name: n1}, {Name: "b"}}, "")})                                   // no root at all
 		emit(c15Doc{"F4-structure", docOf([]c15Q{{Name: "root", Children: []c15Q{{Name: "x"}}}, {Name: n1}}, "")}) // two top level queues
-		emit(c15Doc{"F4-structure", docOf([]c15Q{{Name: n1, Children: []c15Q{{Name: "root"}}}}, "")})               // single top queue that is not root
+		emit(c15Doc{"F4-structure", docOf([]c15Q{{Name: n1, Children: []c15Q{{Name: "root"}}}}, "")})              // single top queue that is not root
 	}
 	for _, pf := range []*bool{nil, &tr, &fa} {
 		for _, withKids := range []bool{false, true} {
@@ -560,12 +560,12 @@ type c15Limit2 struct {
 
 type c15Run struct {
 	evals, accepted int
-	nontrivial  map[string]bool
-	outcomes    map[string]bool
-	found       []mc.Found
-	fpSeen      map[string]int
-	samples     []interface{}
-	perFamily   map[string]int
+	nontrivial      map[string]bool
+	outcomes        map[string]bool
+	found           []mc.Found
+	fpSeen          map[string]int
+	samples         []interface{}
+	perFamily       map[string]int
 }
 
 func (r *c15Run) failDoc(d c15Doc, rule, fp, format string, args ...interface{}) {
